@@ -301,6 +301,9 @@ class _Canon(ast.NodeTransformer):
         return n
 
 
+_RAW_AST: dict = {}
+
+
 class SourceTree:
     """Read-only view of the repository working tree, with an in-memory overlay
     (path -> text) used to analyse mutants without touching the disk."""
@@ -380,8 +383,16 @@ class SourceTree:
             for f in self.files():
                 if f.endswith(".py") and f.startswith("naunet/"):
                     try:
-                        mods.append(ast.parse(self.read(f), filename=f))
-                    except (SyntaxError, AnalysisError):
+                        if f in self.overlay:
+                            mods.append(ast.parse(self.read(f), filename=f))
+                        else:
+                            # files on disk: one raw parse per process (the trees are only read), shared by all overlays
+                            p = os.path.join(self.root, f)
+                            k = (p, os.path.getmtime(p))
+                            if k not in _RAW_AST:
+                                _RAW_AST[k] = ast.parse(self.read(f), filename=f)
+                            mods.append(_RAW_AST[k])
+                    except (SyntaxError, AnalysisError, OSError):
                         pass
             self.__dict__["_cconsts"] = class_constants(mods)
         return self.__dict__["_cconsts"]
